@@ -117,7 +117,24 @@ def solve(assertions, rlimit=RLIMIT_PROVE, want_model=True, use_cvc5=True, tacti
             return "unsat", None, "cvc5", time.time() - t0
         if r3 == "sat":
             return "sat", None, "cvc5", time.time() - t0
+    if want_model:
+        # candidate counter-model from the quantifier-free relaxation (hypotheses dropped => only a candidate: it is
+        # never a verdict by itself, the native replay decides)
+        qf = [a for a in assertions if not _has_quantifier(a)]
+        if len(qf) < len(assertions):
+            s2 = _mk_solver(rlimit // 4)
+            s2.add(*qf)
+            if s2.check() == z3.sat:
+                return "unknown", s2.model(), backend + "+relaxed-candidate", time.time() - t0
     return "unknown", None, backend, time.time() - t0
+
+
+def _has_quantifier(t, depth=0):
+    if z3.is_quantifier(t):
+        return True
+    if depth > 40 or not z3.is_app(t):
+        return False
+    return any(_has_quantifier(c, depth + 1) for c in t.children())
 
 
 class Path:
@@ -226,6 +243,9 @@ class Path:
         status, model, backend, secs = solve(self.pc + [z3.Not(f)])
         res = ObResult(label, {"unsat": "proved", "sat": "refuted", "unknown": "undecided"}[status], backend, secs,
                        path=tuple(self.decisions[: self.pos]))
+        if status == "unknown" and model is not None:
+            res.model = self._extract(model)
+            res.detail = "solver unknown; candidate counter-model from the quantifier-free relaxation"
         if status == "sat":
             self.reached = True     # pc ∧ ¬f satisfiable: this program point is reachable (vacuity guard)
             res.model = self._extract(model)
